@@ -175,10 +175,26 @@ type faultReader struct {
 	pos     int
 	chunk   int   // max bytes per Read (short reads), 0 = unlimited
 	failErr error // error returned once data is exhausted
+	// resume: the failure is TRANSIENT — the error is reported once, then the source delivers these bytes
+	// (a non-blocking descriptor that said EAGAIN, an interrupted read).  The draw that met the error has
+	// failed all the same: nothing tells the library which bytes belong together.
+	resume   []byte
+	failed   bool
+	failures int
 }
 
 func (f *faultReader) Read(p []byte) (int, error) {
 	if f.pos >= len(f.data) {
+		if f.resume != nil && f.failed {
+			n := copy(p, f.resume)
+			if n == 0 {
+				return 0, f.failErr
+			}
+			f.resume = f.resume[n:]
+			return n, nil
+		}
+		f.failed = true
+		f.failures++
 		return 0, f.failErr
 	}
 	n := len(p)
@@ -192,6 +208,13 @@ func (f *faultReader) Read(p []byte) (int, error) {
 	f.pos += n
 	return n, nil
 }
+
+// tempErr: an error that calls itself temporary and a timeout, as net errors do
+type tempErr struct{}
+
+func (tempErr) Error() string   { return "verif: resource temporarily unavailable" }
+func (tempErr) Temporary() bool { return true }
+func (tempErr) Timeout() bool   { return true }
 
 // errClass maps an implementation error to the model's small enum.
 func errClass(err error) string {
@@ -231,3 +254,36 @@ func errClass(err error) string {
 func twinSymbols() *datalogSymbolTable { return &datalogSymbolTable{} }
 
 type datalogSymbolTable = datalog.SymbolTable
+
+// wireAppend: what the HOLDER of an open token can do without the library — decode the envelope,
+// sign a block of its own making with the next secret found in the proof, announce a new key and
+// put the new secret in the proof.  The block bytes are the caller's (any pb.Block).
+func wireAppend(token []byte, blk *pb.Block, seed []byte) ([]byte, error) {
+	c := &pb.Biscuit{}
+	if err := proto.Unmarshal(token, c); err != nil {
+		return nil, err
+	}
+	ns := c.GetProof().GetNextSecret()
+	if len(ns) != 32 {
+		return nil, errors.New("wireAppend: the token is not open")
+	}
+	bb, err := proto.Marshal(blk)
+	if err != nil {
+		return nil, err
+	}
+	cur := ed25519.NewKeyFromSeed(ns)
+	npriv := ed25519.NewKeyFromSeed(seed)
+	npub := npriv.Public().(ed25519.PublicKey)
+	alg := pb.PublicKey_Ed25519
+	msg := append(append(append([]byte{}, bb...), 0, 0, 0, 0), npub...)
+	c.Blocks = append(c.Blocks, &pb.SignedBlock{Block: bb, NextKey: &pb.PublicKey{Algorithm: &alg, Key: npub}, Signature: ed25519.Sign(cur, msg)})
+	c.Proof = &pb.Proof{Content: &pb.Proof_NextSecret{NextSecret: seed}}
+	return proto.Marshal(c)
+}
+
+// declaringBlock: a block whose only content is the declaration of the given new symbols and one fact
+// owner(#idx) over a default predicate name
+func declaringBlock(symbols []string, idx uint64) *pb.Block {
+	return &pb.Block{Version: proto.Uint32(3), Symbols: symbols,
+		FactsV2: []*pb.FactV2{{Predicate: &pb.PredicateV2{Name: proto.Uint64(7), Terms: []*pb.TermV2{{Content: &pb.TermV2_String_{String_: idx}}}}}}}
+}
